@@ -1,1 +1,358 @@
+(* C05: the impl-model of the operator macros (NumImpl) meets the specification (NumSpec) for ALL operand
+   values.  No sampling: every lemma is proved by case analysis on kinds and arithmetic on ranges. *)
 From MS Require Import Num.NumImpl Num.NumSpec.
+
+(* ---------------------------------------------------------------- ranges, casts *)
+Lemma in_range_iff : forall t z, in_range t z = true <-> imin t <= z <= imax t.
+Proof. intros t z. unfold in_range. rewrite andb_true_iff, !Z.leb_le. tauto. Qed.
+
+Lemma in_range_false_iff : forall t z, in_range t z = false <-> ~ (imin t <= z <= imax t).
+Proof. intros t z. rewrite <- in_range_iff. destruct (in_range t z); intuition congruence. Qed.
+
+Lemma wrap_id : forall t z, in_range t z = true -> wrap t z = z.
+Proof.
+  intros t z H. apply in_range_iff in H. destruct t; cbn [wrap imin imax] in *;
+  Z.to_euclidean_division_equations; lia.
+Qed.
+
+Lemma wrap_in_range : forall t z, in_range t (wrap t z) = true.
+Proof.
+  intros t z. apply in_range_iff. destruct t; cbn [wrap imin imax];
+  Z.to_euclidean_division_equations; lia.
+Qed.
+
+(* widening casts keep the value: u8 -> i32 -> i128 *)
+Definition sub_ity (s t : ity) : Prop := imin t <= imin s /\ imax s <= imax t.
+
+Lemma in_range_widen : forall s t z, sub_ity s t -> in_range s z = true -> in_range t z = true.
+Proof. intros s t z [H1 H2] H. apply in_range_iff in H. apply in_range_iff. lia. Qed.
+
+Lemma as_widen : forall s t z, sub_ity s t -> in_range s z = true -> as_ t z = z.
+Proof. intros. unfold as_. apply wrap_id. eapply in_range_widen; eauto. Qed.
+
+Lemma sub_U8_I32 : sub_ity U8 I32.   Proof. unfold sub_ity; cbn; lia. Qed.
+Lemma sub_U8_I128 : sub_ity U8 I128. Proof. unfold sub_ity; cbn; lia. Qed.
+Lemma sub_I32_I128 : sub_ity I32 I128. Proof. unfold sub_ity; cbn; lia. Qed.
+Lemma sub_refl : forall t, sub_ity t t. Proof. unfold sub_ity; intros; lia. Qed.
+
+Lemma as_u32_byte : forall z, in_range U8 z = true -> as_u32 z = z.
+Proof. intros z H. apply in_range_iff in H. cbn in H. unfold as_u32. apply Z.mod_small. lia. Qed.
+
+(* ---------------------------------------------------------------- one integer arm: `x $symbol y` at type t *)
+(* what the specification demands of an integer arm: None = failure demanded *)
+Definition int_spec (t : ity) (o : aop) (x y : Z) : option Z :=
+  if is_divlike o && (y =? 0) then None
+  else if in_range t (exact_Z o x y) then Some (exact_Z o x y) else None.
+
+Definition int_meets (s : option Z) (r : res Z) : Prop :=
+  match s with Some z => r = Ok z | None => is_failure r end.
+
+Lemma min_by_m1_spec : forall t x y,
+  in_range t x = true -> in_range t y = true -> y <> 0 ->
+  min_by_m1 t x y = negb (in_range t (Z.quot x y)).
+Proof.
+  intros t x y Hx Hy Hy0. apply in_range_iff in Hx. apply in_range_iff in Hy.
+  unfold min_by_m1. symmetry.
+  destruct t; cbn [signed andb imin imax] in *.
+  - destruct (Z.eqb_spec x (-2147483648)) as [->|Hn], (Z.eqb_spec y (-1)) as [->|Hm]; cbn [andb];
+      [ apply negb_true_iff, in_range_false_iff | apply negb_false_iff, in_range_iff ..];
+      cbn [imin imax]; Z.to_euclidean_division_equations; nia.
+  - destruct (Z.eqb_spec x (-170141183460469231731687303715884105728)) as [->|Hn], (Z.eqb_spec y (-1)) as [->|Hm]; cbn [andb];
+      [ apply negb_true_iff, in_range_false_iff | apply negb_false_iff, in_range_iff ..];
+      cbn [imin imax]; Z.to_euclidean_division_equations; nia.
+  - apply negb_false_iff, in_range_iff; cbn [imin imax]; Z.to_euclidean_division_equations; nia.
+Qed.
+
+Lemma rem_in_range : forall t x y,
+  in_range t x = true -> in_range t y = true -> y <> 0 -> in_range t (Z.rem x y) = true.
+Proof.
+  intros t x y Hx Hy Hy0. apply in_range_iff in Hx. apply in_range_iff in Hy. apply in_range_iff.
+  destruct t; cbn [imin imax] in *; Z.to_euclidean_division_equations; nia.
+Qed.
+
+(* the fixed code: CheckedArithmetic *)
+Lemma fixed_int_ok : forall t o x y,
+  in_range t x = true -> in_range t y = true ->
+  int_meets (int_spec t o x y) (fixed_int t o x y).
+Proof.
+  intros t o x y Hx Hy. unfold int_spec, fixed_int.
+  destruct o; cbn [is_divlike andb exact_Z];
+    unfold exact_add, exact_sub, exact_mul, exact_div, exact_rem, checked.
+  1-3: match goal with |- context [in_range ?tt ?e] => destruct (in_range tt e) end; cbn; auto.
+  - destruct (Z.eqb_spec y 0) as [->|Hy0]; cbn; auto.
+    rewrite (min_by_m1_spec t x y Hx Hy Hy0).
+    destruct (in_range t (Z.quot x y)); cbn; auto.
+  - destruct (Z.eqb_spec y 0) as [->|Hy0]; cbn; auto.
+    rewrite (rem_in_range t x y Hx Hy Hy0). cbn. reflexivity.
+Qed.
+
+(* the original code in a debug build (overflow checks on): only `MIN % -1` is wrong (it panics, the exact
+   remainder is 0) *)
+Lemma trap_int_ok : forall t o x y,
+  in_range t x = true -> in_range t y = true ->
+  ~ (o = Rem /\ min_by_m1 t x y = true) ->
+  int_meets (int_spec t o x y) (orig_int Trap t o x y).
+Proof.
+  intros t o x y Hx Hy Hex. unfold int_spec, orig_int.
+  destruct o; cbn [is_divlike andb exact_Z]; unfold plain, rust_div, rust_rem.
+  1-3: match goal with |- context [in_range ?tt ?e] => destruct (in_range tt e) end; cbn; auto.
+  - destruct (Z.eqb_spec y 0) as [->|Hy0]; cbn; auto.
+    rewrite (min_by_m1_spec t x y Hx Hy Hy0).
+    destruct (in_range t (Z.quot x y)); cbn; auto.
+  - destruct (Z.eqb_spec y 0) as [->|Hy0]; cbn; auto.
+    rewrite (rem_in_range t x y Hx Hy Hy0).
+    destruct (min_by_m1 t x y); [exfalso; apply Hex; auto | reflexivity].
+Qed.
+
+(* the original code in a release build: additionally every overflowing + - * wraps around *)
+Lemma wrap_int_ok : forall t o x y,
+  in_range t x = true -> in_range t y = true ->
+  ~ (o = Rem /\ min_by_m1 t x y = true) ->
+  (is_divlike o = true \/ in_range t (exact_Z o x y) = true) ->
+  int_meets (int_spec t o x y) (orig_int Wrap t o x y).
+Proof.
+  intros t o x y Hx Hy Hex Hov. unfold int_spec, orig_int.
+  destruct o; cbn [is_divlike andb exact_Z] in *; unfold plain, rust_div, rust_rem.
+  1-3: destruct Hov as [Hov|Hov]; [discriminate | rewrite Hov; reflexivity].
+  - destruct (Z.eqb_spec y 0) as [->|Hy0]; cbn; auto.
+    rewrite (min_by_m1_spec t x y Hx Hy Hy0).
+    destruct (in_range t (Z.quot x y)); cbn; auto.
+  - destruct (Z.eqb_spec y 0) as [->|Hy0]; cbn; auto.
+    rewrite (rem_in_range t x y Hx Hy Hy0).
+    destruct (min_by_m1 t x y); [exfalso; apply Hex; auto | reflexivity].
+Qed.
+
+(* from one integer arm to the operator: the arm's result is tagged with the promoted kind, after the
+   zero guard [g] of div.rs / rem.rs (which may only fire on a zero divisor) *)
+Lemma int_arm_meets : forall k o x y (g : bool) r,
+  k <> KFloat -> (g = true -> y = 0) ->
+  int_meets (int_spec (ity_of k) o x y) r ->
+  meets (if is_divlike o && (y =? 0) then Undefined else repr k (exact_Z o x y))
+        (if is_divlike o && g then Err else lift (mk k) r).
+Proof.
+  intros k o x y g r Hk Hg H. unfold int_spec, repr in *.
+  destruct (is_divlike o); cbn [andb] in *.
+  - destruct g.
+    + rewrite (Hg eq_refl). cbn. exact I.
+    + destruct (y =? 0).
+      * destruct r; cbn in *; auto.
+      * destruct (in_range (ity_of k) (exact_Z o x y)); cbn in *; [subst; reflexivity | destruct r; cbn in *; auto].
+  - destruct (in_range (ity_of k) (exact_Z o x y)); cbn in *; [subst; reflexivity | destruct r; cbn in *; auto].
+Qed.
+
+Ltac not_num H := exfalso; apply H; reflexivity.
+
+Ltac widen :=
+  repeat match goal with
+  | H : in_range U8 ?z = true |- context [as_ I32 ?z] => rewrite (as_widen U8 I32 z sub_U8_I32 H)
+  | H : in_range U8 ?z = true |- context [as_ I128 ?z] => rewrite (as_widen U8 I128 z sub_U8_I128 H)
+  | H : in_range I32 ?z = true |- context [as_ I128 ?z] => rewrite (as_widen I32 I128 z sub_I32_I128 H)
+  | H : in_range I32 ?z = true |- context [as_ I32 ?z] => rewrite (as_widen I32 I32 z (sub_refl _) H)
+  | H : in_range I128 ?z = true |- context [as_ I128 ?z] => rewrite (as_widen I128 I128 z (sub_refl _) H)
+  | H : in_range U8 ?z = true |- context [as_u32 ?z] => rewrite (as_u32_byte z H)
+  end.
+
+Lemma eqb0 : forall z, (z =? 0) = true -> z = 0.
+Proof. intros z H. apply Z.eqb_eq in H. exact H. Qed.
+
+(* + - * / % of the fixed code, every pair of numeric kinds, all values *)
+Theorem arith_fixed : forall o a b, wf a -> wf b -> is_num a -> is_num b ->
+  meets (spec_arith o a b) (arith Fixed o a b).
+Proof.
+  intros o a b Ha Hb Na Nb.
+  destruct a as [x|x|x|x|x], b as [y|y|y|y|y]; try not_num Na; try not_num Nb;
+  unfold spec_arith, arith, apply_math;
+  cbn [kind_of is_zero zero_guard promote math_no_f64 math_f64 option_map Zval Fval ity_of int_op wf] in *;
+  widen.
+  all: try (match goal with |- context [F_is_zero ?f] => destruct (is_divlike o && F_is_zero f) end; cbn; auto; fail).
+  all: try (match goal with |- context [flt_op] => destruct (is_divlike o && (y =? 0)) end; cbn; auto; fail).
+  all: match goal with
+       | |- meets _ (if _ && ?g then Err else lift Int ?r) => apply (int_arm_meets KInt o _ _ g r)
+       | |- meets _ (if _ && ?g then Err else lift Big ?r) => apply (int_arm_meets KBig o _ _ g r)
+       | |- meets _ (if _ && ?g then Err else lift Byte ?r) => apply (int_arm_meets KByte o _ _ g r)
+       end; try discriminate; try apply eqb0; cbn [ity_of]; apply fixed_int_ok; auto;
+       eauto using in_range_widen, sub_U8_I32, sub_U8_I128, sub_I32_I128.
+Qed.
+
+(* ---------------------------------------------------------------- bitwise operators stay in range *)
+Lemma signed_range_shiftr : forall n x, 0 <= n ->
+  (- 2 ^ n <= x <= 2 ^ n - 1) <-> (Z.shiftr x n = 0 \/ Z.shiftr x n = -1).
+Proof.
+  intros n x Hn. rewrite Z.shiftr_div_pow2 by exact Hn.
+  assert (Hp : 0 < 2 ^ n) by (apply Z.pow_pos_nonneg; lia).
+  split; intros H.
+  - destruct (Z_lt_le_dec x 0).
+    + right. symmetry. apply (Z.div_unique x (2 ^ n) (-1) (x + 2 ^ n)); lia.
+    + left. apply Z.div_small. lia.
+  - pose proof (Z.div_mod x (2 ^ n) ltac:(lia)) as E.
+    pose proof (Z.mod_pos_bound x (2 ^ n) Hp) as B.
+    destruct H as [H|H]; rewrite H in E; lia.
+Qed.
+
+Lemma unsigned_range_shiftr : forall n x, 0 <= n ->
+  (0 <= x <= 2 ^ n - 1) <-> Z.shiftr x n = 0.
+Proof.
+  intros n x Hn. rewrite Z.shiftr_div_pow2 by exact Hn.
+  assert (Hp : 0 < 2 ^ n) by (apply Z.pow_pos_nonneg; lia).
+  split; intros H.
+  - apply Z.div_small. lia.
+  - pose proof (Z.div_mod x (2 ^ n) ltac:(lia)) as E.
+    pose proof (Z.mod_pos_bound x (2 ^ n) Hp) as B.
+    rewrite H in E. lia.
+Qed.
+
+Lemma shiftr_bit_op : forall o x y n, 0 <= n ->
+  Z.shiftr (bit_op o x y) n = bit_op o (Z.shiftr x n) (Z.shiftr y n).
+Proof.
+  intros o x y n Hn. destruct o; cbn [bit_op].
+  - apply Z.shiftr_land.
+  - apply Z.shiftr_lor.
+  - apply Z.shiftr_lxor.
+Qed.
+
+Lemma bit_op_signs : forall o a b, (a = 0 \/ a = -1) -> (b = 0 \/ b = -1) ->
+  bit_op o a b = 0 \/ bit_op o a b = -1.
+Proof. intros o a b [->| ->] [->| ->]; destruct o; cbn; auto. Qed.
+
+Lemma bit_in_range : forall t o x y,
+  in_range t x = true -> in_range t y = true -> in_range t (bit_op o x y) = true.
+Proof.
+  intros t o x y Hx Hy. apply in_range_iff in Hx. apply in_range_iff in Hy. apply in_range_iff.
+  destruct t; cbn [imin imax] in *.
+  - change (-2147483648) with (- 2 ^ 31) in *. change 2147483647 with (2 ^ 31 - 1) in *.
+    apply signed_range_shiftr in Hx; [|lia]. apply signed_range_shiftr in Hy; [|lia].
+    apply signed_range_shiftr; [lia|]. rewrite shiftr_bit_op by lia. apply bit_op_signs; assumption.
+  - change (-170141183460469231731687303715884105728) with (- 2 ^ 127) in *.
+    change 170141183460469231731687303715884105727 with (2 ^ 127 - 1) in *.
+    apply signed_range_shiftr in Hx; [|lia]. apply signed_range_shiftr in Hy; [|lia].
+    apply signed_range_shiftr; [lia|]. rewrite shiftr_bit_op by lia. apply bit_op_signs; assumption.
+  - change 255 with (2 ^ 8 - 1) in *.
+    apply unsigned_range_shiftr in Hx; [|lia]. apply unsigned_range_shiftr in Hy; [|lia].
+    apply unsigned_range_shiftr; [lia|]. rewrite shiftr_bit_op by lia. rewrite Hx, Hy. destruct o; reflexivity.
+Qed.
+
+(* & | xor, every pair of numeric kinds, all values (no version dependence) *)
+Theorem bit_exact : forall o a b, wf a -> wf b -> is_num a -> is_num b ->
+  meets (spec_bit o a b) (bit o a b).
+Proof.
+  intros o a b Ha Hb Na Nb.
+  destruct a as [x|x|x|x|x], b as [y|y|y|y|y]; try not_num Na; try not_num Nb;
+  unfold spec_bit, bit, repr;
+  cbn [kind_of promote math_no_f64 Zval ity_of wf lift mk meets is_failure] in *;
+  widen; auto.
+  all: rewrite bit_in_range; [reflexivity | ..]; eauto using in_range_widen, sub_U8_I32, sub_U8_I128, sub_I32_I128.
+Qed.
+
+(* ---------------------------------------------------------------- shifts *)
+Definition sh_value (t : ity) (o : sop) (x n : Z) : Z :=
+  match o with Shl => wrap t (x * 2 ^ n) | Shr => Z.shiftr x n end.
+
+Lemma width_small : forall t, 0 < width t <= 128.
+Proof. destruct t; cbn; lia. Qed.
+
+Lemma shift_arm_try : forall t inj o x y,
+  meets (if (0 <=? y) && (y <? width t) then Exact (inj (sh_value t o x y)) else Undefined)
+        (shift_arm t inj o x (try_u32 y)).
+Proof.
+  intros t inj o x y. pose proof (width_small t) as W. unfold shift_arm, try_u32, checked_sh, sh_value.
+  destruct (Z.leb_spec 0 y); cbn [andb].
+  - destruct (Z.leb_spec y 4294967295); cbn [andb].
+    + destruct (Z.ltb_spec y (width t)); cbn; auto.
+    + destruct (Z.ltb_spec y (width t)); cbn; auto. lia.
+  - cbn. exact I.
+Qed.
+
+Lemma shift_arm_byte : forall t inj o x y, 0 <= y ->
+  meets (if (0 <=? y) && (y <? width t) then Exact (inj (sh_value t o x y)) else Undefined)
+        (shift_arm t inj o x (Some y)).
+Proof.
+  intros t inj o x y Hy. unfold shift_arm, checked_sh, sh_value.
+  destruct (Z.leb_spec 0 y); [|lia]. cbn [andb].
+  destruct (Z.ltb_spec y (width t)); cbn; auto.
+Qed.
+
+(* << >>, every pair of numeric kinds, all values and shift amounts *)
+Theorem shift_exact : forall o a b, wf a -> wf b -> is_num a -> is_num b ->
+  meets (spec_shift o a b) (shift_op o a b).
+Proof.
+  intros o a b Ha Hb Na Nb.
+  destruct a as [x|x|x|x|x], b as [y|y|y|y|y]; try not_num Na; try not_num Nb;
+  unfold spec_shift, shift_op;
+  cbn [kind_of promote Zval ity_of wf mk] in *; widen; try exact I.
+  all: try (apply (shift_arm_try I32 Int) || apply (shift_arm_try I128 Big)).
+  all: (apply (shift_arm_byte I32 Int) || apply (shift_arm_byte I128 Big) || apply (shift_arm_byte U8 Byte));
+       apply in_range_iff in Hb; cbn in Hb; lia.
+Qed.
+
+(* ---------------------------------------------------------------- ordering and equality *)
+Theorem cmp_exact : forall o a b, wf a -> wf b -> is_num a -> is_num b ->
+  meets (spec_cmp o a b) (ord_op o a b).
+Proof.
+  intros o a b Ha Hb Na Nb.
+  destruct a as [x|x|x|x|x], b as [y|y|y|y|y]; try not_num Na; try not_num Nb;
+  unfold spec_cmp, ord_op; cbn [kind_of has_float Zval Fval wf meets] in *; widen; reflexivity.
+Qed.
+
+Theorem equals_exact : forall a b, wf a -> wf b -> is_num a -> is_num b ->
+  match spec_eq a b with Some r => equals a b = Ok r | None => False end.
+Proof.
+  intros a b Ha Hb Na Nb.
+  destruct a as [x|x|x|x|x], b as [y|y|y|y|y]; try not_num Na; try not_num Nb;
+  unfold spec_eq, equals; cbn [kind_of has_float Zval Fval wf] in *; widen; reflexivity.
+Qed.
+
+(* ---------------------------------------------------------------- unary minus, not *)
+Theorem neg_fixed : forall a, wf a -> meets (spec_neg a) (negate Fixed a).
+Proof.
+  intros a Ha. destruct a as [x|x|x|x|x]; unfold spec_neg, negate, neg_int, checked, repr;
+  cbn [ity_of mk meets is_failure lift or_bail]; auto.
+  - destruct (in_range I32 (- x)); cbn; auto.
+  - destruct (in_range I128 (- x)); cbn; auto.
+Qed.
+
+Theorem not_exact : forall a, meets (spec_not a) (not_ a).
+Proof. intros a. destruct a; cbn; auto. Qed.
+
+(* ---------------------------------------------------------------- all binary operators, fixed code *)
+Theorem binop_fixed : forall op a b, wf a -> wf b -> is_num a -> is_num b ->
+  meets (spec_binop op a b) (binop_eval Fixed op a b).
+Proof.
+  intros op a b Ha Hb Na Nb. destruct op as [o|o|o|o|o]; cbn [spec_binop binop_eval].
+  - apply arith_fixed; assumption.
+  - apply bit_exact; assumption.
+  - apply shift_exact; assumption.
+  - apply cmp_exact; assumption.
+  - pose proof (equals_exact a b Ha Hb Na Nb) as H.
+    destruct (spec_eq a b); [|contradiction]. rewrite H. destruct o; reflexivity.
+Qed.
+
+(* the result kind is the one of the promotion table (Bool for comparisons) *)
+Theorem binop_kind : forall op a b ka kb v,
+  kind_of a = Some ka -> kind_of b = Some kb -> spec_binop op a b = Exact v ->
+  rkind_of v = result_kind op ka kb.
+Proof.
+  intros op a b ka kb v Ka Kb H.
+  destruct op as [o|o|o|o|o]; cbn [spec_binop result_kind] in *.
+  - unfold spec_arith in H. rewrite Ka, Kb in H.
+    destruct (is_divlike o && is_zero b); [discriminate|].
+    destruct (promote ka kb); unfold repr in H; cbn [ity_of mk] in H;
+    try (match type of H with context [in_range ?t ?e] => destruct (in_range t e) end);
+    inversion H; reflexivity.
+  - unfold spec_bit in H. rewrite Ka, Kb in H.
+    destruct (promote ka kb); unfold repr in H; cbn [ity_of mk] in H;
+    try (match type of H with context [in_range ?t ?e] => destruct (in_range t e) end);
+    inversion H; reflexivity.
+  - unfold spec_shift in H. rewrite Ka, Kb in H.
+    destruct (promote ka kb); cbn [ity_of mk] in H;
+    try (match type of H with context [if ?c then _ else _] => destruct c end);
+    inversion H; reflexivity.
+  - unfold spec_cmp in H. rewrite Ka, Kb in H. inversion H. reflexivity.
+  - destruct (spec_eq a b); destruct o; inversion H; reflexivity.
+Qed.
+
+Theorem neg_kind : forall a v, spec_neg a = Exact v -> Some (rkind_of v) = option_map RNum (kind_of a).
+Proof.
+  intros a v H. destruct a; unfold spec_neg, repr in H; cbn [ity_of mk] in H;
+  try (match type of H with context [in_range ?t ?e] => destruct (in_range t e) end);
+  inversion H; reflexivity.
+Qed.
